@@ -105,7 +105,7 @@ Definition code_for_string (value : text) : code_res :=
   | _ => match unescape (S (length inner)) inner with
          | EText [c] => COk (Z.of_N c)
          | EText _ => CInterface
-         | EDecodeError => CLeak            (* UnicodeDecodeError is not caught *)
+         | EDecodeError => CInterface       (* UnicodeDecodeError is reported as "must be a single character" *)
          | EOutOfDomain => COutOfDomain
          end
   end.
